@@ -514,7 +514,8 @@ class EventBus:
         # Automatically set event_parent_id from context if not already set
         if event.event_parent_id is None:
             current_event: 'BaseEvent[Any] | None' = _current_event_context.get()
-            if current_event is not None:
+            # forwarding an event from inside its own handler context must not make it its own parent
+            if current_event is not None and current_event.event_id != event.event_id:
                 event.event_parent_id = current_event.event_id
 
         # Add this EventBus to the event_path if not already there
